@@ -1,6 +1,7 @@
 package main
 
 import (
+	"sort"
 	"fmt"
 	"math/rand"
 	"net/http"
@@ -24,6 +25,45 @@ type raceEnv struct {
 	r    *mux.Router[*rcH]
 	bad  atomic.Int64
 	msgs sync.Map
+	digests sync.Map
+}
+
+// isoDigest runs a small deterministic history (method subsets added in a random order, some removed) on a
+// fresh router and renders everything it answers about methods.
+func isoDigest(e *raceEnv, seed int64) string {
+	r := rand.New(rand.NewSource(seed))
+	rt := newRaceRouter("iso", e)
+	all := []string{"GET", "POST", "DELETE", "PUT", "PATCH", "CONNECT"}
+	var reg [][2]string
+	for k := 2 + r.Intn(3); k > 0; k-- {
+		p := "/p" + fmt.Sprint(r.Intn(3))
+		m := all[r.Intn(len(all))]
+		func() {
+			defer func() { recover() }()
+			rt.Handle(p, &rcH{"I"}, nil, m)
+			reg = append(reg, [2]string{p, m})
+		}()
+	}
+	for k := r.Intn(3); k > 0 && len(reg) > 0; k-- {
+		x := reg[r.Intn(len(reg))]
+		rt.Remove(x[0], x[1])
+	}
+	var sb strings.Builder
+	sb.WriteString("*=" + doReq(rt, http.MethodOptions, "*").Header().Get("X-Allow") + ";")
+	for i := 0; i < 3; i++ {
+		w := doReq(rt, http.MethodOptions, "/p"+fmt.Sprint(i))
+		sb.WriteString(fmt.Sprintf("p%d=%s/%s;", i, w.Header().Get("X-H"), w.Header().Get("X-Allow")))
+	}
+	rs := rt.Routes()
+	keys := make([]string, 0, len(rs))
+	for k := range rs {
+		keys = append(keys, k)
+	}
+	sort.Strings(keys)
+	for _, k := range keys {
+		sb.WriteString(k + ":" + strings.Join(rs[k], ",") + ";")
+	}
+	return sb.String()
 }
 
 func (e *raceEnv) fail(format string, a ...any) {
@@ -38,6 +78,9 @@ func newRaceRouter(name string, e *raceEnv, opts ...mux.Option) *mux.Router[*rcH
 			return
 		}
 		w.Header().Set("X-H", h.id)
+		if h.id == "BOOM" {
+			panic("boom")
+		}
 		if n := route.Node(); n != nil {
 			w.Header().Set("X-Pattern", n.Pattern())
 			w.Header().Set("X-Allow", n.AllowHeader())
@@ -60,11 +103,12 @@ func doReq(h http.Handler, method, path string) *httptest.ResponseRecorder {
 // readers serve stable and toggled routes, list Routes() and build URLs.
 func scenarioC06(d time.Duration, seed int64) int {
 	e := &raceEnv{}
-	e.r = newRaceRouter("main", e, mux.WithLock(true))
+	e.r = newRaceRouter("main", e, mux.WithLock(true), mux.WithRecovery(func(w http.ResponseWriter, _ any) { w.WriteHeader(500) }))
 	stable := []string{"/stable", "/stable/{id}/x", "/st", "/users/{id}"}
 	for _, p := range stable {
 		e.r.Handle(p, &rcH{"S:" + p}, nil, http.MethodGet)
 	}
+	e.r.Handle("/boom/{id}", &rcH{"BOOM"}, nil, http.MethodGet) // its handler panics: recovered requests must not disturb others
 	toggles := []string{"/stable/abc", "/sta", "/users/{id}/posts", "/stable/{id}/y", "/t/{id}", "/s", "/users/admin"}
 	stop := make(chan struct{})
 	var wg sync.WaitGroup
@@ -152,6 +196,10 @@ func scenarioC06(d time.Duration, seed int64) int {
 					// a toggled route yields its own handler, 404, 405, or an untouched route that also matches
 					if !(h == "T:"+p || h == "NF" || h == "NA" || strings.HasPrefix(h, "S:") || strings.HasPrefix(h, "T:")) {
 						e.fail("toggled route %s answered by %q", p, h)
+					}
+				case 4:
+					if w := doReq(e.r, http.MethodGet, "/boom/13"); w.Code != 500 {
+						e.fail("a panicking handler under the recovery option answered %d", w.Code)
 					}
 				case 3:
 					w := doReq(e.r, http.MethodOptions, "/stable")
@@ -277,6 +325,20 @@ func scenarioC07(d time.Duration, seed int64) int {
 				}
 				ctx.Destroy()
 				hs.Delete(fmt.Sprintf("h%d.example.com", i))
+				hseed := int64(r.Intn(150))
+				if d, old := isoDigest(e, hseed), ""; true {
+					if v, ok := e.digests.LoadOrStore(hseed, d); ok {
+						old = v.(string)
+					} else {
+						old = d
+					}
+					if old != d {
+						e.fail("the same history (seed %d) on a fresh router gave different answers at different times: %q vs %q", hseed, old, d)
+					}
+					if !strings.Contains(d, "*=") || strings.Contains(d, "*=;") {
+						e.fail("OPTIONS * without an Allow list: %q", d)
+					}
+				}
 				g := mux.NewGroup[*rcH](func(http.ResponseWriter, *http.Request, types.Route, *rcH) {}, &rcH{"GNF"},
 					func(types.Node) *rcH { return &rcH{"NA"} }, func(types.Node) *rcH { return &rcH{"OP"} })
 				g.New("x", nil).Handle("/x", &rcH{"X"}, nil, http.MethodGet)
